@@ -25,6 +25,30 @@ TOLERANT_ADAPTATIONS = {
 }
 
 
+def _adapt_key(test):
+    """order-insensitive form of a level-dependent condition: the set of its conjuncts, with the argument of the level test
+    abstracted (is_tolerant(self.validation_level) and is_tolerant(validation_level) read the same resolved level)"""
+    import re as _re
+    t = test if not isinstance(test, str) else ast.parse(test, mode='eval').body
+    from .pat import conjuncts
+    out = set()
+    for c_ in conjuncts(t):
+        x = norm(c_)
+        x = _re.sub(r'(Validator\.)?is_(tolerant|strict)\([^()]*\)', r'is_\2(*)', x)
+        if x.startswith('(') and x.endswith(')'):
+            x = x[1:-1]
+        out.add(x)
+    return frozenset(out)
+
+
+def listed_adaptation(fq, test):
+    k = _adapt_key(test)
+    for (f_, txt), why in TOLERANT_ADAPTATIONS.items():
+        if f_ == fq and _adapt_key(txt) == k:
+            return why
+    return None
+
+
 # functions that must contain a STRICT-only refusal (what STRICT construction enforces beyond TOLERANT)
 REQUIRED_REFUSALS = {
     'base_datatypes.BaseDataType.__init__': 'a value longer than the datatype\'s maximum length',
@@ -168,9 +192,9 @@ def run(chk):
                          'the branch taken only under STRICT does more than refuse (or its else-branch is taken only under '
                          'TOLERANT): the same accepted call sequence behaves differently under the two levels', where, key=key)
         else:
-            if (fn.qualname, ctxt) in TOLERANT_ADAPTATIONS:
-                chk.ok('C05-L', construct, 'listed tolerant-only adaptation: ' + TOLERANT_ADAPTATIONS[(fn.qualname, ctxt)],
-                       where, key=key)
+            why_ = listed_adaptation(fn.qualname, iff.test)
+            if why_:
+                chk.ok('C05-L', construct, 'listed tolerant-only adaptation: ' + why_, where, key=key)
             else:
                 chk.fail('C05-L', construct,
                          'a branch runs only under TOLERANT and is not one of the listed adaptations (for which STRICT is known '
@@ -179,7 +203,7 @@ def run(chk):
     # what STRICT enforces today must stay enforced: each of these functions keeps a STRICT refusal
     for fq, what in sorted(REQUIRED_REFUSALS.items()):
         fi = ix.func(fq)
-        ok = fq in refusing
+        ok = fq in refusing or fi.qualname in refusing        # (an inherited implementation counts under its own name)
         chk.ob('C05-L', '%s refuses under STRICT: %s' % (fq, what), ok,
                'the STRICT-only refusal in this function is gone: STRICT now lets in %s' % what, fi.loc,
                key='C05-L|required|%s' % fq)
